@@ -7,6 +7,8 @@ import Model.Store.Search
 import Lemmas.StoreSqlSmallScope
 import Lemmas.StoreSqlFrame
 import Lemmas.LogTimeAccept
+import Model.Store.FilterSem
+import Lemmas.FilterSem
 /-! C04 — what the read API reports is the replay of the log   (**PARTIAL**: see `checks/c04.py` META).
 
 Stage 1 (this part of the file): the laws of `Store.replay`, the independent fold the property speaks about.  They hold
@@ -511,5 +513,137 @@ theorem get_account_balance_before_witness :
     (getAccountBalance (project wBefore) "l" "alice" "USD" none == Val.int 16) = true ∧
     balance (replay wBefore "l") When.always "alice" "USD" = 16 := by
   decide
+
+end C04
+
+/-! ## Filters: the `where` text built for a filter expression MEANS the filter
+
+Quantifier of C04: "every point-in-time and **filter**".  What a filtered read reports must be the replay of the log
+restricted by that filter; the rows are selected by the `where` text the query builder writes.  `Model.SqlText.exprPieces`
+is the model of that writer (`libs/query` `set.Build` / `not.Build` / `keyValue.Build` + the `ContextFn` leaf renderers
+of `ledgerstore`; tied to the real SQL text by the `sqltext` stream of C20 and the `filtersem` stream of
+`checks/c04.py`).  `Model.Store.FilterSem` holds the intended meaning of a filter (`sem`: `$not` negation, `$and`
+conjunction, `$or` disjunction, a leaf = the boolean skeleton of atomic conditions its renderer is meant to emit) and
+`boolParse`, the reading of a token sequence under SQL operator precedence (parentheses, NOT > AND > OR; TRUSTED: my
+model of PostgreSQL's grammar for the three connectives).  The statements below say the two coincide, for every
+listing, PIT flag, ledger name and EVERY expression that renders — all nesting depths and list lengths, leaves whose
+own text is an unparenthesised `a or b` (account match on transactions) or `a and b and …` (address pattern with
+wildcard segments) included.  The proof (`Lemmas/FilterSem.lean`) shows where the parentheses are needed: `set.Build`
+wraps every item, `not.Build` wraps its operand, bun wraps every `Where(...)`. -/
+namespace C04
+open SqlText FilterSem
+
+/-- **The rendered `where` text has exactly the boolean structure the filter tree says.**  For every listing `ep`,
+point-in-time flag, ledger and every filter expression `e` that the query context accepts (`exprPieces … = .ok ps`):
+the tokens of the rendering (the scanner `SqlText.lexL` on every piece) are read by `boolParse` as a tree whose value,
+under EVERY assignment of truth values to the atomic conditions, is the intended meaning `sem` of `e`. -/
+theorem filter_where_means_filter (ep : Endpoint) (pit : Bool) (ledger : Chars) (e : Expr) (ps : List Piece)
+    (h : exprPieces ep pit ledger e = .ok ps) :
+    ∃ t, boolParse (pieceToks ps) = some t ∧ ∀ asg, t.eval asg = sem ep pit ledger asg e :=
+  (expr_reads ep pit ledger e ps h).parse _ (Nat.lt_succ_self _)
+
+/-- the rendering has balanced parentheses and is not mistaken for a sub-select: whoever wraps it in `( … )` — bun's
+`Where`, an enclosing `$and` / `$or` / `$not` — gets a boolean group with the same reading -/
+theorem filter_text_wraps (ep : Endpoint) (pit : Bool) (ledger : Chars) (e : Expr) (ps : List Piece)
+    (h : exprPieces ep pit ledger e = .ok ps) :
+    bal (pieceToks ps) = true ∧ startsSelect (pieceToks ps) = false ∧
+      ∃ t, boolParse (paren (pieceToks ps)) = some t ∧ ∀ asg, t.eval asg = sem ep pit ledger asg e := by
+  have r := expr_reads ep pit ledger e ps h
+  exact ⟨r.bal, r.nosel, (opnd_reads (paren_opnd r)).parse _ (Nat.lt_succ_self _)⟩
+
+/-- **The filter stays conjoined with the statement's own conditions** (the ledger predicate, the PIT bound): bun
+writes every `Where(...)` as one parenthesised conjunct, `(c₁) AND … AND (cₙ) AND (filter)`; for atomic conditions
+`cᵢ` that text is read as `c₁ ∧ … ∧ cₙ ∧ sem e` — no connective of the filter can capture or escape them. -/
+theorem filter_attached_as_conjunct (ep : Endpoint) (pit : Bool) (ledger : Chars) (e : Expr) (ps : List Piece)
+    (h : exprPieces ep pit ledger e = .ok ps) (pre : List (List Tok)) (hpre : ∀ c ∈ pre, isAtomToks c = true) :
+    ∃ t, boolParse (whereToks (pre ++ [pieceToks ps])) = some t ∧
+      ∀ asg, t.eval asg = (pre.all asg && sem ep pit ledger asg e) :=
+  (where_reads pre hpre (expr_reads ep pit ledger e ps h)).parse _ (Nat.lt_succ_self _)
+
+/-- the tree form of the meaning (what the driver prints and the check compares with the reading of the captured SQL) -/
+theorem filter_skeleton_is_meaning (ep : Endpoint) (pit : Bool) (ledger : Chars) (asg : List Tok → Bool) (e : Expr) :
+    (skel ep pit ledger e).eval asg = sem ep pit ledger asg e :=
+  skel_eval ep pit ledger asg e
+
+/-- every leaf alone: the text of one matcher is read as the skeleton it is meant to be (one condition; `source OR
+destination`; `length AND segment AND …`) -/
+theorem leaf_text_means_leaf (ep : Endpoint) (pit : Bool) (ledger : Chars) (key : FKey) (op : String) (v : JV)
+    (ps : List Piece) (h : leafPieces ep pit ledger key op v = .ok ps) :
+    ∃ t, boolParse (pieceToks ps) = some t ∧ ∀ asg, t.eval asg = (leafSkel ep pit ledger key op v).eval asg :=
+  (leaf_reads h).parse _ (Nat.lt_succ_self _)
+
+/-! ### non-vacuity: concrete filters, read by evaluation -/
+
+/-- the atomic conditions of the examples, by their text -/
+abbrev A (s : String) : BTree := .atom (lex s)
+
+/-- `$not` over an account match on transactions: the negation covers BOTH column tests -/
+example : (renderFilter .transactions false "l" (.not (.leaf .account "$match" (.str "bank".toList)))).toOption =
+    some "not (sources @> '[\"bank\"]' or destinations @> '[\"bank\"]')" := by decide
+example : (exprPieces .transactions false "l".toList (.not (.leaf .account "$match" (.str "bank".toList)))).toOption.map
+      (fun ps => boolParse (pieceToks ps)) =
+    some (some (.not (.or (A "sources @> '[\"bank\"]'") (A "destinations @> '[\"bank\"]'")))) := by decide
+/-- the same text through the scanner as a whole, inside the statement's `where` -/
+example : boolParseSql "(transactions.ledger = 'l') AND (not (sources @> '[\"bank\"]' or destinations @> '[\"bank\"]'))" =
+    some (.and (A "transactions.ledger = 'l'") (.not (.or (A "sources @> '[\"bank\"]'") (A "destinations @> '[\"bank\"]'")))) := by
+  decide
+/-- piece by piece or as one text: the same tokens -/
+example : (exprPieces .transactions false "l".toList (.not (.leaf .account "$match" (.str "bank".toList)))).toOption.map
+      (fun ps => decide (pieceToks ps = lex (String.ofList (flat ps)))) = some true := by decide
+
+/-- **the parentheses of `not.Build` are needed**: without them the same leaf reads `(NOT source) OR destination` — a
+transaction whose destination is `bank` would be listed among those that do not involve `bank` -/
+example : boolParseSql "not sources @> '[\"bank\"]' or destinations @> '[\"bank\"]'" =
+    some (.or (.not (A "sources @> '[\"bank\"]'")) (A "destinations @> '[\"bank\"]'")) := by decide
+theorem not_needs_its_parentheses :
+    ∃ asg, (boolParseSql "not sources @> '[\"bank\"]' or destinations @> '[\"bank\"]'").map (·.eval asg) ≠
+      some (sem .transactions false "l".toList asg (.not (.leaf .account "$match" (.str "bank".toList)))) :=
+  ⟨fun ts => decide (ts = lex "destinations @> '[\"bank\"]'"), by decide⟩
+
+/-- `$not` over `$or [a, b]` -/
+def notOr : Expr := .not (.set false [.leaf .source "$match" (.str "world".toList), .leaf .destination "$match" (.str "bank".toList)])
+example : (renderFilter .transactions false "l" notOr).toOption =
+    some "not ((sources @> '[\"world\"]') or (destinations @> '[\"bank\"]'))" := by decide
+example : (exprPieces .transactions false "l".toList notOr).toOption.map (fun ps => boolParse (pieceToks ps)) =
+    some (some (.not (.or (A "sources @> '[\"world\"]'") (A "destinations @> '[\"bank\"]'")))) := by decide
+/-- … and what the same set reads as when the operand of `not` is not wrapped: `(NOT a) OR b` -/
+example : boolParseSql "not (sources @> '[\"world\"]') or (destinations @> '[\"bank\"]')" =
+    some (.or (.not (A "sources @> '[\"world\"]'")) (A "destinations @> '[\"bank\"]'")) := by decide
+
+/-- an address pattern with a wildcard segment under `$not`, on accounts: `NOT (length AND segment)` -/
+example : (exprPieces .accounts false "l".toList (.not (.leaf .address "$match" (.str "users:".toList)))).toOption.map
+      (fun ps => boolParse (pieceToks ps)) =
+    some (some (.not (.and (A "jsonb_array_length(accounts.address_array) = 2")
+      (A "accounts.address_array @@ ('$[0] == \"users\"')::jsonpath")))) := by decide
+
+/-- three deep, mixed: `$and [ $not ($or [account, $and [metadata, $not reference]]), timestamp ]` -/
+def deep : Expr :=
+  .set true [.not (.set false [.leaf .account "$match" (.str "a:".toList),
+                               .set true [.leaf (.metadata "k".toList) "$match" (.str "v".toList),
+                                          .not (.leaf .reference "$match" (.str "r".toList))]]),
+             .leaf .timestamp "$lte" (.str "2023-01-01T00:00:00Z".toList)]
+set_option maxRecDepth 100000 in
+example : (exprPieces .transactions true "l".toList deep).toOption.map (fun ps => boolParse (pieceToks ps)) =
+    some (some (.and
+      (.not (.or (.or (A "sources_arrays @> '[{\"0\":\"a\",\"2\":null}]'") (A "destinations_arrays @> '[{\"0\":\"a\",\"2\":null}]'"))
+                 (.and (A "transactions_metadata.metadata @> '{\"k\":\"v\"}'") (.not (A "reference = 'r'")))))
+      (A "timestamp <= '2023-01-01T00:00:00Z'"))) := by decide
+set_option maxRecDepth 100000 in
+/-- the reading and the meaning agree under all 2^5 assignments of the five atomic conditions -/
+example : (((exprPieces .transactions true "l".toList deep).toOption.bind (fun ps => boolParse (pieceToks ps))).map
+    (fun t => equivalent t (skel .transactions true "l".toList deep))) = some true := by decide
+
+set_option maxRecDepth 100000 in
+/-- a balance matcher is ONE condition although its sub-select contains `and`: `not ( select … ) < 5` negates the comparison -/
+example : ((exprPieces .accounts false "l".toList (.not (.leaf (.balanceOf "USD".toList) "$lt" (.num 5)))).toOption.bind
+      (fun ps => boolParse (pieceToks ps))).map (fun t => match t with | .not (.atom _) => true | _ => false) = some true := by decide
+
+/-- an empty `$and` / `$or` is `1 = 1`, the constant true -/
+example : (exprPieces .accounts false "l".toList (.not (.set false []))).toOption.map (fun ps => boolParse (pieceToks ps)) =
+    some (some (.not .tt)) := by decide
+
+/-- shapes the reading refuses rather than guesses -/
+example : boolParseSql "a is not null" = none ∧ boolParseSql "a and" = none ∧ boolParseSql "(a or b" = none ∧
+    boolParseSql "a between 1 and 2" = none := by decide
 
 end C04
